@@ -225,11 +225,12 @@ class Builder:
 
 # ---------------------------------------------------------------------------------------------
 @st.composite
-def coll_step(draw):
+def coll_step(draw, zero_ok=True):
     k = draw(st.sampled_from(COLL_KINDS))
     s = {"t": "coll", "k": k}
     if k != "barrier":
-        s["count"] = draw(st.one_of(st.sampled_from(COLL_COUNTS), st.integers(0, 300)))
+        lo = 0 if zero_ok or k not in ("alltoall", "gather", "scatter", "allgather") else 1
+        s["count"] = draw(st.one_of(st.sampled_from(COLL_COUNTS[1 - (lo == 0):]), st.integers(lo, 300)))
         s["type"] = draw(st.sampled_from(["INT", "DOUBLE", "FLOAT", "LONG_LONG", "SHORT"] if k in REDUCTIONS else TYPE_NAMES))
     if k in ROOTED:
         s["root"] = draw(st.integers(0, 7))
@@ -241,7 +242,7 @@ def coll_step(draw):
 
 
 @st.composite
-def p2p_step(draw, np_, comms):
+def p2p_step(draw, np_, comms, zero_ok=True):
     n = draw(st.integers(1, 6))
     msgs = []
     for _ in range(n):
@@ -250,7 +251,7 @@ def p2p_step(draw, np_, comms):
     s = {"t": "p2p", "msgs": msgs, "done": draw(st.sampled_from(["wait", "waitall", "test"])), "rev": draw(st.booleans()),
          "comm": draw(st.sampled_from(comms))}
     if draw(st.integers(0, 2)) == 0:
-        s["inner"] = draw(coll_step())
+        s["inner"] = draw(coll_step(zero_ok))
     return s
 
 
@@ -260,12 +261,16 @@ def cases(draw, tier):
     nsteps = draw(st.integers(2, 10 if tier == "quick" else 25))
     steps = []
     comms = ["world"]
+    # communicator creation and zero-count collectives hit known findings (known/C37.json): in a minority of the cases only, so that
+    # the other cases can show other divergences
+    with_comm = draw(st.integers(0, 6)) == 0
+    zero_ok = draw(st.integers(0, 6)) == 0
     for _ in range(nsteps):
-        kind = draw(st.sampled_from(["coll", "coll", "coll", "p2p", "p2p", "p2p", "sendrecv", "sendrecv", "comm"]))
+        kind = draw(st.sampled_from(["coll", "coll", "coll", "p2p", "p2p", "p2p", "sendrecv", "sendrecv"] + (["comm", "comm"] if with_comm else [])))
         if kind == "coll":
-            steps.append(draw(coll_step()))
+            steps.append(draw(coll_step(zero_ok)))
         elif kind == "p2p":
-            steps.append(draw(p2p_step(np_, comms)))
+            steps.append(draw(p2p_step(np_, comms, zero_ok)))
         elif kind == "sendrecv":
             steps.append({"t": "sendrecv", "shift": draw(st.integers(1, 7)), "count": draw(st.sampled_from([0, 1, 100, 8192, 8193, 70000])),
                           "type": draw(st.sampled_from(TYPE_NAMES))})
@@ -279,7 +284,7 @@ def cases(draw, tier):
                 comms = comms + [k]
     plat = draw(st.sampled_from(["small", "small", "cluster", "fattree"]))
     return {"np": np_, "platform": plat, "hostshift": draw(st.integers(0, 6)), "hoststep": draw(st.sampled_from([1, 1, 2, 3])),
-            "selector": draw(st.sampled_from(["default", "default", "ompi", "mpich", "mvapich2"])), "steps": steps}
+            "selector": draw(st.sampled_from(["default"] * 6 + ["ompi"] * 2 + ["mpich", "mvapich2"])), "steps": steps}
 
 
 class C37(core.Prop):
@@ -357,24 +362,24 @@ class C37(core.Prop):
             if rr.rc != 0 or not end or len(fin) != np_:
                 kind = "deadlock" if "eadlock" in rr.err else "cpu" if rr.cpu_exceeded else "crash" if rr.rc < 0 else "failed"
                 # SMP-aware algorithms (mpich / mvapich2 selectors) call Comm::init_smp(), which switches the replay mode off for a while
-                cls = "smp-aware-selector" if kind == "crash" and case.get("selector") in ("mpich", "mvapich2") and b.ncoll else "other"
+                cls = "smp-aware-selector" if kind == "crash" and case.get("selector") in ("mpich", "mvapich2") and b.ncoll else self.classify(b, actions)
                 err = "\n".join(l for l in rr.err.splitlines() if "Switch to algorithm" not in l)
-                oc.bad("replay-%s:%s" % (kind, cls), "the replay of the trace ended with rc=%s, %d/%d ranks reached finalize; traced actions: %s; stderr tail: %s"
+                oc.bad("%s:replay-%s" % (cls, kind), "the replay of the trace ended with rc=%s, %d/%d ranks reached finalize; traced actions: %s; stderr tail: %s"
                        % (rr.rc, len(fin), np_, actions, err[-1200:]))
                 return oc
-            for r in range(np_):
-                if not core.close(t_on[r], fin[r], rel=REL):
-                    cls = self.classify(b, actions)
-                    oc.bad("end-date:" + cls, "rank %d ends at %r online (MPI_Wtime before MPI_Finalize) and at %r in the replay (difference %.3g); "
-                           "all ranks online %s, replay %s; traced actions: %s" % (r, t_on[r], fin[r], fin[r] - t_on[r], t_on, [fin[x] for x in range(np_)], actions))
-                    break
-            else:
-                if not core.close(res.end["t"], end[0], rel=REL):
-                    oc.bad("final-date", "the per-rank end dates agree but the final simulated date is %r online and %r in the replay" % (res.end["t"], end[0]))
             oc.labels.extend(sorted(set(b.labels)))
             oc.labels.append("np=%d" % np_)
             oc.labels.append("platform:" + case.get("platform", "small"))
             oc.labels.append("selector:" + case.get("selector", "default"))
+            for r in range(np_):
+                if not core.close(t_on[r], fin[r], rel=REL):
+                    cls = self.classify(b, actions)
+                    oc.bad(cls + ":end-date", "rank %d ends at %r online (MPI_Wtime before MPI_Finalize) and at %r in the replay (difference %.3g); "
+                           "all ranks online %s, replay %s; traced actions: %s" % (r, t_on[r], fin[r], fin[r] - t_on[r], t_on, [fin[x] for x in range(np_)], actions))
+                    break
+            else:
+                if not core.close(res.end["t"], end[0], rel=REL):
+                    oc.bad(self.classify(b, actions) + ":final-date", "the per-rank end dates agree but the final simulated date is %r online and %r in the replay" % (res.end["t"], end[0]))
             oc.nontrivial = b.nb_completed_later > 0 and b.ncoll > 0
             oc.info = {"t_online": t_on, "actions": actions}
         finally:
@@ -383,11 +388,11 @@ class C37(core.Prop):
 
     @staticmethod
     def classify(b, actions):
-        """root-cause class of a divergence, from what the program contains (known causes first)"""
-        if any(l.startswith("comm:") for l in b.labels):
-            return "communicator-creation-not-traced"
+        """root-cause class of a divergence, from what the program contains (known causes first): first part of the signature"""
         if b.zero_recv_count:
             return "zero-receive-count-dropped"
+        if any(l.startswith("comm:") for l in b.labels):
+            return "communicator-creation-not-traced"
         return "other"
 
 
